@@ -83,6 +83,7 @@ type Session struct {
 	anc      map[*ssa.BasicBlock]map[*ssa.BasicBlock]bool
 	mu       sync.Mutex
 	trackAlloc bool
+	boxedSlices map[string]boxedSlice
 	factWeak   []string // per fact: "" or the type key of a global type-invariant axiom (relevant only through that type's fields)
 	weakKey    string
 	inputs   []*inSpec
@@ -147,6 +148,11 @@ func (s *Session) freshConst(prefix, sort string) string {
 	n := s.fresh(prefix)
 	s.declare(n, sort)
 	return n
+}
+
+type boxedSlice struct {
+	term string
+	elem types.Type
 }
 
 func (s *Session) fact(f string) {
